@@ -26,6 +26,11 @@ pub struct DxOpts {
 }
 
 pub fn run_items(rep: &mut Report, prop: &str, tier: Tier, items: Vec<DxItem>, opts: DxOpts) {
+    run_items_workers(rep, prop, tier, items, opts, 16)
+}
+
+/// `workers` = 1 for scenarios that touch process-global state of the subject (executions must not overlap).
+pub fn run_items_workers(rep: &mut Report, prop: &str, tier: Tier, items: Vec<DxItem>, opts: DxOpts, workers: usize) {
     // Iterative deepening ACROSS items under one global budget (opts.time_cap): pass k explores every
     // item whose bound is >= k at deviation bound exactly k (which includes everything below); the
     // deepest completed pass of each item is what is reported, so a cap costs depth, never breadth.
@@ -51,7 +56,7 @@ pub fn run_items(rep: &mut Report, prop: &str, tier: Tier, items: Vec<DxItem>, o
         if work.is_empty() {
             continue;
         }
-        let results = crate::ctl::explore_many_opt(work, 16, false, Some(deadline));
+        let results = crate::ctl::explore_many_opt(work, workers, false, Some(deadline));
         for (&i, r) in idxs.iter().zip(results) {
             match r {
                 Ok(st) => {
